@@ -306,7 +306,7 @@ impl Prop for C01 {
             }
         };
         for (snap, model) in snaps.iter().zip(models.iter()) {
-            let rb = read_back(&ro, snap, model, &ReadBackOpts { inode: !s.local_source, mode_mask: u32::MAX, ..ReadBackOpts::default() }, &mut rng);
+            let rb = read_back(&ro, snap, model, &ReadBackOpts { inode: !s.local_source, mode_mask: u32::MAX, stream_sizes: !s.local_source, ..ReadBackOpts::default() }, &mut rng);
             if !rb.is_equal() {
                 rep.violation(format!("C01/readback:{}", classify(&rb.short())), rb.short());
             }
